@@ -22,6 +22,7 @@ objects so they can be GCed
 
 import (
 	"fmt"
+	"math"
 	"os"
 	"reflect"
 	"runtime/debug"
@@ -1130,6 +1131,16 @@ func objectIs(a, b py.Object) bool {
 	}
 	if !va.Type().Comparable() {
 		return false
+	}
+	// Go's == is not reflexive on NaN, an object is always itself:
+	// compare the representation of floating point values
+	switch x := a.(type) {
+	case py.Float:
+		return math.Float64bits(float64(x)) == math.Float64bits(float64(b.(py.Float)))
+	case py.Complex:
+		y := b.(py.Complex)
+		return math.Float64bits(real(x)) == math.Float64bits(real(y)) &&
+			math.Float64bits(imag(x)) == math.Float64bits(imag(y))
 	}
 	return a == b
 }
